@@ -26,6 +26,9 @@ type tgProp struct {
 
 type tgCase struct {
 	Rev     bool                `json:"rev,omitempty"` // print properties (and choice alternatives) in reverse order
+	// RootAlias: the root is registered under a second name as well and every link to the root is written with that
+	// name (TypeGraph.tla speaks of types, not of names: which of its names a link uses does not matter)
+	RootAlias string `json:"rootalias,omitempty"`
 	Types   map[string][]tgProp `json:"types"`
 	Forms   map[string]string   `json:"forms,omitempty"`      // "object" (default) | "nullable-object" | "alias" | "nullable-alias"
 	OptDef  bool                `json:"optdefault,omitempty"` // every schema object is created with AreKeysOptionalByDefault
@@ -158,7 +161,13 @@ func tgEval(cs tgCase) []core.Finding {
 			}
 			cs.Types = rt
 		}
-		root := jschema.New("@main", tgText(cs.Types["0"], cs.Forms["0"]))
+		al := func(t string) string {
+			if cs.RootAlias != "" {
+				return strings.ReplaceAll(t, "@main", cs.RootAlias)
+			}
+			return t
+		}
+		root := jschema.New("@main", al(tgText(cs.Types["0"], cs.Forms["0"])))
 		root.AreKeysOptionalByDefault = cs.OptDef
 		for _, k := range names {
 			if k == "0" {
@@ -166,7 +175,7 @@ func tgEval(cs tgCase) []core.Finding {
 			}
 			var i int
 			fmt.Sscan(k, &i)
-			ty := jschema.New(tgName(i), tgText(cs.Types[k], cs.Forms[k]))
+			ty := jschema.New(tgName(i), al(tgText(cs.Types[k], cs.Forms[k])))
 			ty.AreKeysOptionalByDefault = cs.OptDef
 			if err := root.AddType(tgName(i), ty); err != nil {
 				return []core.Finding{{Class: "typegraph:addtype", What: fmt.Sprintf("AddType(%s) failed: %v", tgName(i), firstLineOf(err))}}
@@ -182,6 +191,11 @@ func tgEval(cs tgCase) []core.Finding {
 		}
 		if err := root.AddType("@main", root); err != nil {
 			return []core.Finding{{Class: "typegraph:addtype-self", What: fmt.Sprintf("AddType(@main) failed: %v", firstLineOf(err))}}
+		}
+		if cs.RootAlias != "" {
+			if err := root.AddType(cs.RootAlias, root); err != nil {
+				return []core.Finding{{Class: "typegraph:addtype-self", What: fmt.Sprintf("AddType(%s) failed: %v", cs.RootAlias, firstLineOf(err))}}
+			}
 		}
 		err := root.Check()
 		is104 := err != nil && errCode(err) == 104
@@ -318,6 +332,13 @@ func runC06(c *core.Ctx) error {
 			cr.Rev = true
 			c.CountEval(1)
 			c.Report(cr, tgEval(cr))
+			// nor on the name under which the root is referred to, when it is registered under two
+			if cs.Cycle && i%2 == 0 {
+				ca := cs
+				ca.RootAlias = []string{"@zmain", "@amain"}[(i/2)%2]
+				c.CountEval(1)
+				c.Report(ca, tgEval(ca))
+			}
 		})
 		c.Set("graphs_replayed_"+cf.name, len(cases))
 		if cf.name == "TypeGraph_ring4.cfg" {
